@@ -250,6 +250,17 @@ Definition request_later (root : positive) : M unit := updr root (fun r => set_r
 Definition request_restore (root : positive) : M unit :=
   updr root (fun r => set_rrestore r true) ;;; request_later root.
 
+(* _focus_chain_changed: while(win && !win->is_root) win = win->parent; if(win) _request_restore(WINDOW_AS_ROOT(win)) *)
+Fixpoint focus_chain_changed (fuel : nat) (w : ptr) : M unit :=
+  match fuel with
+  | O => nofuel
+  | S f =>
+    match w with
+    | None => ret tt
+    | Some a => c <- getw a ;; if w_isroot c then request_restore a else focus_chain_changed f (w_parent c)
+    end
+  end.
+
 (* tickit_window_expose(win, rect) with a rectangle that always intersects: the walk towards
    the root, then the root's damage set *)
 Fixpoint expose (fuel : nat) (a : positive) : M unit :=
@@ -359,7 +370,7 @@ Definition do_change (fuel : nat) (ch : change) (p w : positive) : M unit :=
     hremove fuel p w ;;;
     upd w (fun c => set_parent c None) ;;;
     cp <- getw p ;;
-    if ptr_eqb (w_focus cp) (Some w) then setw p (set_focus cp None) else ret tt
+    if ptr_eqb (w_focus cp) (Some w) then setw p (set_focus cp None) ;;; focus_chain_changed fuel (Some p) else ret tt
   | ChRaise => hraise fuel p w
   | ChRaiseFront => hremove fuel p w ;;; insert_first p w
   | ChLower => hlower fuel p w
@@ -569,7 +580,7 @@ Definition window_show (fuel : nat) (w : positive) : M unit :=
      | None =>
        cw2 <- getw w ;;
        if (match w_focus cw2 with Some _ => true | None => false end) || w_focused cw2
-       then upd p (fun c => set_focus c (Some w)) else ret tt
+       then upd p (fun c => set_focus c (Some w)) ;;; focus_chain_changed fuel (Some p) else ret tt
      | Some _ => ret tt
      end
    end) ;;;
@@ -582,7 +593,7 @@ Definition window_hide (fuel : nat) (w : positive) : M unit :=
   | None => ret tt
   | Some p =>
     cp <- getw p ;;
-    (if ptr_eqb (w_focus cp) (Some w) then setw p (set_focus cp None) else ret tt) ;;;
+    (if ptr_eqb (w_focus cp) (Some w) then setw p (set_focus cp None) ;;; focus_chain_changed fuel (Some p) else ret tt) ;;;
     expose fuel p
   end.
 
@@ -605,9 +616,14 @@ Fixpoint focus_gained (fuel : nat) (w : positive) (child : ptr) : M unit :=
   | O => nofuel
   | S f =>
     c <- getw w ;;
-    (match w_focus c, child with
+    (match w_focus c, child with                 (* if(win->focused_child && win->focused_child != child) *)
      | Some fc, Some ch => if negb (Pos.eqb fc ch) then focus_lost f fc else ret tt
-     | _, _ => ret tt
+     | Some fc, None => focus_lost f fc
+     | None, _ => ret tt
+     end) ;;;
+    (match child with                            (* if(child && win->is_focused) win->is_focused = false *)
+     | Some _ => c0 <- getw w ;; if w_focused c0 then setw w (set_focused c0 false) else ret tt
+     | None => ret tt
      end) ;;;
     c1 <- getw w ;;
     (match w_parent c1 with
@@ -863,15 +879,19 @@ with handle_key (fuel : nat) (w : positive) {struct fuel} : M bool :=
     else
       window_ref w ;;;
       c1 <- getw w ;;
-      r1 <- (match w_first c1 with
-             | Some fc => cfc <- getw fc ;; if w_steal cfc then handle_key f fc else ret false
-             | None => ret false
+      rs <- (match w_first c1 with
+             | Some fc =>
+               cfc <- getw fc ;;
+               if w_steal cfc then r <- handle_key f fc ;; ret (r, Some fc) else ret (false, None)
+             | None => ret (false, None)
              end) ;;
+      let r1 := fst rs in
+      let stealer : ptr := if v_events_asis V then None else snd rs in   (* only compared, never dereferenced *)
       (if r1 then (unref f w ;;; ret true)
        else
          c2 <- getw w ;;
          r2 <- (match w_focus c2 with
-                | Some fc => handle_key f fc
+                | Some fc => if ptr_eqb (Some fc) stealer then ret false else handle_key f fc
                 | None => ret false
                 end) ;;
          if r2 then (unref f w ;;; ret true)
@@ -885,10 +905,10 @@ with handle_key (fuel : nat) (w : positive) {struct fuel} : M bool :=
              unref f w ;;; ret r4
            else
              kids <- copy_children f w ;;
-             r4 <- key_kids f w kids ;;
+             r4 <- key_kids f w stealer kids ;;
              unref f w ;;; ret r4)
   end
-with key_kids (fuel : nat) (w : positive) (kids : list positive) {struct fuel} : M bool :=
+with key_kids (fuel : nat) (w : positive) (stealer : ptr) (kids : list positive) {struct fuel} : M bool :=
   match fuel with
   | O => nofuel
   | S f =>
@@ -896,11 +916,11 @@ with key_kids (fuel : nat) (w : positive) (kids : list positive) {struct fuel} :
     | [] => ret false
     | k :: kids' =>
       still <- is_child f w k ;;
-      if negb still then key_kids f w kids'
+      if negb still then key_kids f w stealer kids'
       else
         cw <- getw w ;;
-        if ptr_eqb (w_focus cw) (Some k) then key_kids f w kids'
-        else r <- handle_key f k ;; if r then ret true else key_kids f w kids'
+        if ptr_eqb (w_focus cw) (Some k) || ptr_eqb (Some k) stealer then key_kids f w stealer kids'
+        else r <- handle_key f k ;; if r then ret true else key_kids f w stealer kids'
     end
   end
 (* pinned: for(child = win->first_child; child; child = next) { next = child->next; ... } *)
